@@ -33,6 +33,7 @@ units = [
     u("C07_select", "harness/C07_select.cpp", shards=(1, 1), fl=FL1),
     u("C07_unordered", "harness/C07_unordered.cpp", shards=(1, 1), fl=FL1),
     u("C07_members", "harness/C07_members.cpp", shards=(1, 1), fl=FL),
+    u("C07_valueor", "harness/C07_valueor.cpp", shards=(1, 1), fl=FL1),
     u("C07_probe_nullopt_rel", "harness/C07_probe.cpp", probe=1, shards=(1, 1), fl=FL1),
     u("C07_probe_optref_conv", "harness/C07_probe.cpp", probe=2, shards=(1, 1), fl=FL),
     u("C07_probe_visit_ref", "harness/C07_probe.cpp", probe=3, shards=(1, 1), fl=FL1),
@@ -53,6 +54,8 @@ P = dict(
                 "variants with REPEATED alternative types (variant<tracked,int,tracked>, variant<int,int>, variant<string-like,string-like,char>) driven purely by index incl. "
                 "visit_with_index, and expected<T,T> / expected<T,E convertible to T>; "
                 "the alternative selected by converting construction/assignment for 416 (variant, argument type) cells and 83 optional<T>/optional<U> conversion cells; "
+                "every relation with the SAME object on both sides / an optional against its own contained object for non-reflexive and inconsistent payload comparisons; "
+                "value_or with fallbacks of other arithmetic / class types at the precision boundaries (value and declared return type) and the declared result types of and_then / or_else; "
                 "all six relations over unordered payloads (NaN, a partially ordered instrumented type whose own <,<=,>,>= calls are counted) for optional, optional<T&> and variant; "
                 "952 cells over payload types whose copy/move constructor, copy/move assignment and destructor are independently trivial or user-provided, comparing the "
                 "special-member call ledger of copy/move assignment, construction, emplace, reset and swap with the std owner of the same payload type. "
